@@ -141,7 +141,7 @@ func cbcCase(c *ev.Case) {
 	rng := c.Rng
 	klen := keySizes[c.Index%3]
 	n := pickLen(c, c.Index/3)
-	key, iv := rng.Bytes(klen), rng.Bytes(blk)
+	key, iv := genKey(c, rng, klen), rng.Bytes(blk)
 	if rng.Chance(1, 40) {
 		iv = make([]byte, blk)
 	}
@@ -317,7 +317,7 @@ func hostileTail(rng *ev.Rand, total, b int) ([]byte, string) {
 func cbcHostileCase(c *ev.Case) {
 	rng := c.Rng
 	klen := keySizes[rng.Intn(3)]
-	key, iv := rng.Bytes(klen), rng.Bytes(blk)
+	key, iv := genKey(c, rng, klen), rng.Bytes(blk)
 	b, err := aes.NewCipher(key)
 	if err != nil {
 		c.Run().HarnessFailure("reference NewCipher: " + err.Error())
@@ -402,7 +402,11 @@ var badKeySizes = func() []int {
 func badKeyCase(c *ev.Case) {
 	rng := c.Rng
 	klen := badKeySizes[c.Index%len(badKeySizes)]
-	key := rng.Bytes(klen)
+	// the content class of the offered key goes by index, so that every size meets
+	// every class (a 48- or 64-byte string of hex digits is still not an AES key)
+	class := keyClasses[(c.Index/len(badKeySizes))%len(keyClasses)]
+	key := genKeyClass(rng, klen, class)
+	c.Add("badkey_class/"+class, 1)
 	if klen == 0 && rng.Bool() {
 		key = nil
 	}
